@@ -13,8 +13,9 @@ import subprocess
 import sys
 import time
 
-REPO = "/tmp/mut-repo"      # scratch worktree of /repo HEAD; /repo itself is never touched
+REPO = os.environ.get("MUT_REPO", "/tmp/mut-repo")      # scratch worktree of /repo HEAD; /repo itself is never touched
 M = []
+OUT = REPO + "-out"
 
 
 def m(mid, checks, path, old, new, occ=None, tests=None, note=""):
@@ -134,13 +135,13 @@ def main():
     results = json.load(open(out_path)) if os.path.exists(out_path) else {}
     subprocess.run(["git", "-C", "/repo", "worktree", "remove", "--force", REPO], capture_output=True)
     subprocess.run(["git", "-C", "/repo", "worktree", "add", "--detach", REPO, "HEAD"], check=True, capture_output=True)
-    os.makedirs("/tmp/mut-out/evidence", exist_ok=True)
-    os.makedirs("/tmp/mut-out/replays", exist_ok=True)
+    os.makedirs(OUT + "/evidence", exist_ok=True)
+    os.makedirs(OUT + "/replays", exist_ok=True)
     try:
         return campaign(only, tests, results, out_path)
     finally:
         subprocess.run(["git", "-C", "/repo", "worktree", "remove", "--force", REPO], capture_output=True)
-        subprocess.run(["rm", "-rf", "/tmp/mut-out"])
+        subprocess.run(["rm", "-rf", OUT])
 
 
 def campaign(only, tests, results, out_path):
@@ -157,8 +158,8 @@ def campaign(only, tests, results, out_path):
             for c in mut["checks"]:
                 t0 = time.time()
                 r = subprocess.run(["./check", c, "--tier", "quick"], cwd="/verif", capture_output=True, text=True,
-                                   env=dict(os.environ, VERIF_REPO=REPO, VERIF_EVIDENCE_DIR="/tmp/mut-out/evidence",
-                                            VERIF_REPLAY_DIR="/tmp/mut-out/replays"))
+                                   env=dict(os.environ, VERIF_REPO=REPO, VERIF_EVIDENCE_DIR=OUT + "/evidence",
+                                            VERIF_REPLAY_DIR=OUT + "/replays"))
                 viol = [l for l in r.stdout.splitlines() if l.startswith("VIOLATION")]
                 detail = [l.strip()[:200] for l in r.stdout.splitlines() if "rejected at event" in l][:2]
                 res[c] = {"exit": r.returncode, "violations": len(viol), "detail": detail, "wall": round(time.time() - t0, 1)}
@@ -176,7 +177,9 @@ def campaign(only, tests, results, out_path):
                                    {c: (v["exit"], v["violations"]) for c, v in res.items()}), flush=True)
         if tres:
             print("     existing tests: " + tres)
-        json.dump(results, open(out_path, "w"), indent=1)
+        merged = json.load(open(out_path)) if os.path.exists(out_path) else {}      # (several instances may run)
+        merged[mut["id"]] = results[mut["id"]]
+        json.dump(merged, open(out_path, "w"), indent=1)
     return 0
 
 
